@@ -136,6 +136,11 @@ def skip_decision(ctx, RS, q=None):
         if a is None and b is None:
             ok, msg = False, "put() does not test _last_item at all"
             break
+        if a is False and b is None:
+            # the path knows that something is pending but never compares the item with it
+            if not deleg:
+                ok, msg = False, "put() drops every item while another one is pending, whether or not it is a duplicate (the equality test is missing on this path)"
+            continue
         if should and len(deleg) != 1:
             ok, msg = False, f"put() drops an item that is not a duplicate of the pending last item (path: {p.sig()})"
         if not should and deleg:
@@ -197,6 +202,8 @@ VARIANTS = [
     dict(name="B never reset on dequeue", expect="fire", rule="C16/reset-on-dequeue", edits=[(BR, "        if item is self._last_item:\n            self._last_item = None\n", "")]),
     dict(name="B always reset on dequeue", expect="fire", rule="C16/reset-on-dequeue", edits=[(BR, "        if item is self._last_item:\n            self._last_item = None\n", "        self._last_item = None\n")]),
     dict(name="B skip when last is None too", expect="fire", rule="C16/skip-decision-local", edits=[(BR, "if self._last_item is None or item != self._last_item:", "if self._last_item is not None and item != self._last_item:")]),
+    dict(name="B skip whenever something is pending", expect="fire", rule="C16/skip-decision-local", edits=[(BR, "if self._last_item is None or item != self._last_item:", "if self._last_item is None:")]),
+    dict(name="E None test dropped (item != None is always true for events)", expect="silent", edits=[(BR, "if self._last_item is None or item != self._last_item:", "if item != self._last_item:")]),
     dict(name="B compare=False on dest_path", expect="fire", rule="C16/event-equality", edits=[(EV, '    dest_path: bytes | str = ""', '    dest_path: bytes | str = field(default="", compare=False)')]),
     dict(name="B subclass __eq__ ignoring class", expect="fire", rule="C16/event-equality", edits=[(EV, 'class FileMovedEvent(FileSystemMovedEvent):\n    """File system event representing file movement on the file system."""\n', 'class FileMovedEvent(FileSystemMovedEvent):\n    """File system event representing file movement on the file system."""\n\n    def __eq__(self, other: object) -> bool:\n        return isinstance(other, FileSystemEvent) and self.src_path == other.src_path\n\n    __hash__ = FileSystemEvent.__hash__\n')]),
     dict(name="B _put skips base primitive", expect="fire", rule="C16/primitives-delegate", edits=[(BR, "        super()._put(item)\n        self._last_item = item", "        self._last_item = item")]),
